@@ -93,7 +93,19 @@ def run(files, pid):
         obls.append({"name": "lean:Common.lean (shared lemmas about generated definitions) checks", "function": "Common.lean", "verdict": "unknown" if missing_defs else "failed", "backend": "lean",
                      "kind": "lean-theorem", "ms": 0.0, "output": gen.get("common_out", "")[:1500]})
         return obls
+    if "C04.lean" in files or "@invmaps" in files:
+        # the inverse maps (latent space -> parameter space) are claimed bijective on ALL of R: nothing may be dropped from them that clamps
+        # their argument or result or depends on the clipping margin (the forward maps clamp inside the margin, which the theorems state)
+        INV = ("utils:sigmoid", "transforms:BoundedTransform.from_unit_interval", "transforms:LogitTransform.inverse", "transforms:ProbitTransform.inverse",
+               "transforms:PeriodicTransform.inverse", "transforms:AffineTransform.inverse")
+        for q in INV:
+            drops = [d for d in gen.get("dropped", {}).get(q, []) if "clip" in d or "eps" in d]
+            obls.append({"name": f"lean:extraction:C04:C03:C05:{q.split(':')[1]} is translated without dropping a clamp or a margin-dependent branch "
+                                 f"(the inverse map is a bijection of all of R onto the open interval)", "function": q,
+                         "verdict": "failed" if drops else "proved", "backend": "lean", "kind": "extraction", "ms": 0.0, "output": "; ".join(drops) or None})
     for f in files:
+        if f == "@invmaps":
+            continue
         if f == "@range":
             src = "open Finset Real Spec Gen\nset_option linter.unusedVariables false\nvariable {n : ℕ} [NeZero n]\n\n" + gen.get("range_text", "")
             f = "Range.lean"
